@@ -25,22 +25,21 @@ META = {
                   'string < 65536, completes within the bound, every character consumed once in order) from any reachable state in which the console is not inside a command. '
                   'tokenize_roundtrip at the full strength DESIGN.md words it (quoted strings may start with the other quote character; holds since fix 15aaa9d of D11 - '
                   'the old loop is kept as tokStepOld with the kernel-checked witness d11_old_tokenizer_mangles_nested_quote: cap "\'a" gave a"). '
-                  'PARTIAL: unquoted_simple_split_partial covers <= 4 blank-separated words without trailing blanks (the general UnquotedSimpleSplit is stated, not proved; '
-                  'such lines are covered by fourth_takes_rest + sampling).',
+                  'unquoted_simple_split in general (any quote-free line whose first character is not a blank: first three tokens = first three blank-separated words, '
+                  'argc = min(4, number of words); any separators, trailing blanks, any number of words). No partial theorems remain.',
     'level_note': 'Trusted: Lean kernel (standard axioms only; no bv_decide); the hand model of console.c, validated on every run against the real code '
                   '(harness #includes console.c, ASan + -fsanitize=bounds, canaries around an exactly-sized console_t, real fibre.c/list.c/messageq.c/ringbuf.c); '
                   'commands are modelled as scripts (capture, optional scribble over the scratch union, yield k times, exit/fail) plus the built-ins echo/help/unknown '
                   '- commands that read the ring or keep pointers into scratch are outside the model; libc (strlen, strcmp, isspace for bytes < 128, memset, stdio) '
                   'is modelled, not verified; the ring buffer is a sequential bounded FIFO here (its lock-freedom is C05) and the scheduler is "run console_run until it '
                   'waits" (C01); the sorted order of the table is checked by the correspondence run and the oracle, not by a theorem; output text is compared exactly with '
-                  'the model but is not part of any theorem. Sampling only (no theorem): equality of the three delivery mechanisms on overflowing bursts (> 15 outstanding), '
-                  'trailing blanks / more than four words in unquoted lines.',
+                  'the model but is not part of any theorem. Sampling only (no theorem): behaviour on overflowing bursts (> 15 characters outstanding), where the ring drops input.',
     'design_ref': '§6 C15, §5 D7 D8 D11 O1',
 }
 REQUIRED = ['Librfn.C15.' + t for t in (
     'layout_ok', 'buffer_safe', 'tokenizer_writes_inside', 'args_wellformed', 'dispatch_exact', 'register_full_clean',
     'line_is_edit', 'completed_line_is_edit', 'fourth_takes_rest', 'tokenize_roundtrip', 'd11_old_tokenizer_mangles_nested_quote',
-    'unquoted_simple_split_partial', 'process_delivers_all', 'putchar_delivers_if_drained', 'eval_executes_once_and_completes')]
+    'unquoted_simple_split', 'tokens_assemble', 'process_delivers_all', 'putchar_delivers_if_drained', 'eval_executes_once_and_completes')]
 
 R = vlib.REPO
 BL = ' \t'
